@@ -72,6 +72,8 @@ func World(prop string, r *rng.R, n int) Result {
 	if prop == "C14" || prop == "C05" || prop == "C03" || prop == "C01" {
 		wr.sweepNext = 0
 	}
+	// ... and one history that tries to occupy the dust collector's address before the module account exists
+	wr.dustNext = prop == "C14" || prop == "C11"
 	for len(res.Cases) < n {
 		cr := r.Fork()
 		c, fails := wr.runCase(prop, p, cr, stats)
@@ -191,6 +193,16 @@ func (wr *worldRunner) runCase(prop string, p profile, r *rng.R, stats map[strin
 	}
 	pinned := wr.pinFirst
 	wr.pinFirst = false
+	dust := false
+	if !pinned && wr.dustNext {
+		// a user funds itself, sends a coin to the dust collector's address (refused: the account is blocked), somebody
+		// leaves dust on the orbiter account, and a valid packet of that denomination arrives (the sweep must work)
+		dust, wr.dustNext = true, false
+		u := wr.a.users[0].Raw
+		ops = append(ops, planned{op: world.Op{Kind: "deposit", To: u, Denom: sim.USDC, Amount: big.NewInt(100)}, info: pktInfo{shape: "deposit"}},
+			planned{op: world.Op{Kind: "send", From: u, To: sim.DustAddr(), Denom: sim.USDC, Amount: big.NewInt(5)}, info: pktInfo{shape: "send"}},
+			planned{op: world.Op{Kind: "deposit", To: sim.OrbiterAddr(), Denom: sim.USDC, Amount: big.NewInt(7)}, info: pktInfo{shape: "deposit"}})
+	}
 	sweep := -1
 	if wr.sweepNext >= 0 && wr.sweepNext < 2*3*spoilClasses {
 		sweep = wr.sweepNext
@@ -199,8 +211,9 @@ func (wr *worldRunner) runCase(prop string, p profile, r *rng.R, stats map[strin
 	for i := 0; i < nops; i++ {
 		x := r.Intn(p.wRecv + p.wMsg + p.wDeposit + p.wQuery + p.wSend)
 		pin := pinned && i == 0
-		swept := sweep >= 0 && i == 0
-		if pin || swept {
+		swept := sweep >= 0 && i == 0 && !dust
+		dusted := dust && i == 0
+		if pin || swept || dusted {
 			x = 0
 		}
 		if x < p.wRecv && !pin && !swept && lastRecv != nil && lastRecv.info.denom != "" && lastRecv.info.amount.Sign() > 0 && r.Chance(p.pRepeat) {
@@ -233,6 +246,13 @@ func (wr *worldRunner) runCase(prop string, p profile, r *rng.R, stats map[strin
 			ops = append(ops, planned{op: op, info: pktInfo{shape: "send"}})
 		case x < p.wRecv:
 			pkt, info := g.genPacket()
+			if dusted {
+				for try := 0; try < 3000 && !(info.shape == "valid" && info.spec != nil && pkt.ICS != nil && !info.spec.swap && info.denom == sim.USDC && info.expectOK &&
+					!info.spec.fwd.gasHook); try++ {
+					pkt, info = g.genPacket()
+				}
+				info.shape += "/after-a-send-to-the-dust-collector"
+			}
 			if swept {
 				kind := cleanRoutes[sweep%3]
 				g.variant = 1 + sweep/(3*spoilClasses) // first pass: the first option of every choice, second pass: the second
@@ -270,7 +290,7 @@ func (wr *worldRunner) runCase(prop string, p profile, r *rng.R, stats map[strin
 					}
 				}
 			}
-			if !pin && !swept && info.spec != nil && pkt.ICS != nil && info.spec.rawMem == nil && info.spec.fwd.kind == "hyp" && !info.spec.fwd.gasHook && info.denom != "" && p.wDeposit > 0 && r.Chance(10) {
+			if !pin && !swept && !dusted && info.spec != nil && pkt.ICS != nil && info.spec.rawMem == nil && info.spec.fwd.kind == "hyp" && !info.spec.fwd.gasHook && info.denom != "" && p.wDeposit > 0 && r.Chance(10) {
 				// a Hyperlane forwarding that names the collateral token of ANOTHER denomination, while the orbiter account
 				// happens to hold enough of that denomination (anybody can send it there)
 				if other, ok := otherDenom(info.denom); ok && info.amount.Sign() > 0 && info.amount.BitLen() < 80 {
@@ -290,7 +310,7 @@ func (wr *worldRunner) runCase(prop string, p profile, r *rng.R, stats map[strin
 					info.shape += "/unbuildable"
 				}
 			}
-			if !pin && !swept && info.spec != nil && pkt.ICS != nil && info.spec.rawMem == nil && r.Chance(3) {
+			if !pin && !swept && !dusted && info.spec != nil && pkt.ICS != nil && info.spec.rawMem == nil && r.Chance(3) {
 				// a complete orbiter memo followed by something: not a JSON document any more
 				raw := pkt.ICS.Memo + rng.Pick(r, []string{"}", " x", `,"forward":{}`, pkt.ICS.Memo, "]", " null", "\x00"})
 				info.spec.rawMem = &raw
@@ -314,6 +334,9 @@ func (wr *worldRunner) runCase(prop string, p profile, r *rng.R, stats map[strin
 				}
 			}
 			oddShare := p.pOddWire
+			if dusted {
+				oddShare = 0
+			}
 			if prop == "C07" && info.orbiter {
 				oddShare = 45 // what the ICS-20 decoder refuses is not the orbiter's, whoever the receiver reads as
 			}
@@ -342,7 +365,7 @@ func (wr *worldRunner) runCase(prop string, p profile, r *rng.R, stats map[strin
 					}
 				}
 			}
-			if !pin && !swept && r.Chance(p.pCallback) && pkt.ICS != nil {
+			if !pin && !swept && !dusted && r.Chance(p.pCallback) && pkt.ICS != nil {
 				// a packet Noble sent earlier: its acknowledgement or timeout comes back
 				op.Callback = rng.Pick(r, []string{"ack-ok", "ack-err", "timeout"})
 				op.Pkt = world.Packet{SrcPort: dstPort, SrcChan: rng.Pick(r, dstChans), DstPort: srcPort, DstChan: srcChan,
@@ -350,7 +373,7 @@ func (wr *worldRunner) runCase(prop string, p profile, r *rng.R, stats map[strin
 						Sender: rng.Pick(r, []string{wr.a.users[0].Bech, sim.OrbiterAddr().String(), "noble1invalid"}), Receiver: "cosmos1xyz", Memo: pkt.ICS.Memo}}
 				info = pktInfo{shape: "callback/" + op.Callback}
 			}
-			if pin || swept {
+			if pin || swept || dusted {
 			} else if info.orbiter && r.Chance(p.pFault) {
 				k := r.Intn(9)
 				op.Plan = make([]bool, k+1)
